@@ -63,7 +63,8 @@ def run(ck):
         if i % 3 == 0:
             _, d = sc.run_impl(c, 1, 1, reuse, strip)
             so_cases.append((c, 1, 1, reuse, strip, d))
-            sol_cases.append(f'sol2_case {cg.coq_netlist(c)} {cg.coq_list((stim[:, 0] == 3).tolist(), lc.b)}')
+            nlc = cg.coq_netlist(c)
+            sol_cases.append(f'(wf_netlist_b {nlc} && acyclic_b {nlc} && sol2_case {nlc} {cg.coq_list((stim[:, 0] == 3).tolist(), lc.b)})')
         if i < 2:
             ck.sample({'nodes': len(c.nodes), 'lines': len(c.lines), 'kinds': sorted(set(n.kind for n in c.nodes))[:8],
                        'sims': sims, 'cycles': k, 'c_reuse': reuse, 'strip_forks': strip})
@@ -85,11 +86,11 @@ def run(ck):
     idx2 = cg.parse_nat_list(out2) if ok2 else None
     ck.obligation(f'Coq model of SimOps.build = sim.SimOps on {len(so_cases)} generated circuits (ops, levels, c_locs, c_caps, c_len)',
                   idx2 == [], 'correspondence', '' if idx2 == [] else f'failing cases {idx2} {out2[-400:]}')
-    ok3, out3 = ck.coq_eval('sol', sc.HEADER.replace('Model.Corr.', 'Model.Corr Model.NetlistSem.') +
+    ok3, out3 = ck.coq_eval('sol', sc.HEADER.replace('Model.Corr.', 'Model.Corr Model.NetlistSem Proofs.WfCheck.') +
                             'Definition results : list bool := [\n ' + ';\n '.join(sol_cases) + '].\nEval vm_compute in (failing results).\n')
     idx3 = cg.parse_nat_list(out3) if ok3 else None
     ck.obligation(f'the model\'s op list executed gate by gate is a solution of the per-node netlist equations on {len(sol_cases)} '
-                  'generated circuits (executable twin of C01_build_ops_solution; guards the hypotheses wf/acyclic against vacuity)',
+                  'generated circuits (executable twin of C01_build_ops_solution) and the theorem\'s hypotheses wf_netlist / comb_acyclic are discharged for each of them by the proved-sound checkers wf_netlist_b / acyclic_b',
                   idx3 == [], 'correspondence', '' if idx3 == [] else out3[-400:])
     ck.obligation(f'Coq model of LogicSim(m=2) s_to_c/c_prop/c_to_s/cycle = implementation on {len(coq_cases)} lanes',
                   allok and not mism, 'correspondence', f'failing cases {mism[:10]}')
